@@ -131,6 +131,9 @@ func c17rScan() (settled, serving, inInner bool, adj int) {
 			hdr = g[:i]
 		}
 		inAcquire := strings.Contains(hdr, "[select") && strings.Contains(g, "semaphore.(*Weighted).Acquire")
+		if isAdj && strings.Contains(hdr, "[chan receive") && strings.Contains(g, "semaphore.(*Weighted).Acquire") {
+			inAcquire = true // a weight larger than the semaphore's size: parked for ever in `<-ctx.Done()`
+		}
 		switch {
 		case isFsm:
 			fsmSeen = true
@@ -320,6 +323,8 @@ func c17rExec(raw json.RawMessage) interface{} {
 		st.mu.Unlock()
 		obs.Snaps = append(obs.Snaps, sn)
 	}
+	bigSeen := false
+	lastSet := in.Cap0
 	for i, op := range in.Ops {
 		if r.startNum != 1 {
 			break
@@ -371,10 +376,23 @@ func c17rExec(raw json.RawMessage) interface{} {
 				}
 			}
 		case "set":
-			if op.N < 1 || op.N > 1000 {
+			// capacities near maxCapacity: only between settled, quiet snapshots, and only shrinks afterwards
+			// (a grow next to a pending / parked shrink would make Weighted.Release panic, see the sem harness)
+			prevRace := i > 0 && in.Ops[i-1].Race
+			quiet := true
+			if c17rIsBig(int64(op.N)) || bigSeen {
+				_, _, _, adj := c17rScan()
+				quiet = adj == 0
+			}
+			if op.N < 1 || (op.N > 1000 && !c17rIsBig(int64(op.N))) ||
+				((c17rIsBig(int64(op.N)) || bigSeen) && (op.Race || prevRace || !quiet)) || (bigSeen && op.N > lastSet) {
 				skipped = append(skipped, i)
 				break
 			}
+			if c17rIsBig(int64(op.N)) {
+				bigSeen = true
+			}
+			lastSet = op.N
 			gen++
 			spec, err := c17rSpec(port, op.N, gen)
 			if err != nil {
@@ -425,7 +443,7 @@ func c17rExec(raw json.RawMessage) interface{} {
 		}
 	}
 	// teardown: un-park adjustment goroutines, stop the server, reset the client sockets
-	for i := 0; i < 64; i++ {
+	for i := 0; i < 64 && !bigSeen; i++ {
 		_, ws := c17rPeek(r)
 		if len(ws) == 0 {
 			break
@@ -434,6 +452,10 @@ func c17rExec(raw json.RawMessage) interface{} {
 		time.Sleep(200 * time.Microsecond)
 	}
 	hs.Close()
+	// runtime.Close never sets stateClosed, so the runtime's checkFailed goroutine (10 s ticker) would
+	// live forever (a small leak per closed HTTPServer in the product; outside C17). Thousands of leaked
+	// goroutines make every goroutine dump of the following cases slower: let it end at its next tick.
+	r.setState(stateClosed)
 	for _, c := range order {
 		if tc, ok := c.(*net.TCPConn); ok {
 			tc.SetLinger(0)
@@ -448,7 +470,49 @@ func c17rExec(raw json.RawMessage) interface{} {
 	return obs
 }
 
+
+// capacities at and beyond maxCapacity (20 000 000): the clamp of SetMaxCount
+var c17rBigCaps = []int64{19999999, 20000000, 20000001, 25000000, 4294967295}
+
+func c17rIsBig(n int64) bool {
+	for _, b := range c17rBigCaps {
+		if n == b {
+			return true
+		}
+	}
+	return false
+}
+
+// c17rGenBig: reload to a maxConnections at / beyond maxCapacity ("unlimited"), then reload to a small one
+// below usage, then closes and dials
+func c17rGenBig(r *verifh.Rand) interface{} {
+	in := c17rInput{Cap0: uint32(r.PickInt(1, 2, 3))}
+	dials := 0
+	for k := r.Range(0, 3); k > 0; k-- {
+		in.Ops = append(in.Ops, c17rOp{Op: "dial"})
+		dials++
+	}
+	in.Ops = append(in.Ops, c17rOp{Op: "set", N: uint32(c17rBigCaps[r.Intn(len(c17rBigCaps))])})
+	for k := r.Range(1, 5); k > 0; k-- {
+		in.Ops = append(in.Ops, c17rOp{Op: "dial"})
+		dials++
+	}
+	in.Ops = append(in.Ops, c17rOp{Op: "set", N: uint32(r.Range(1, 3))})
+	for k := r.Range(2, 10); k > 0; k-- {
+		if r.Intn(2) == 0 {
+			in.Ops = append(in.Ops, c17rOp{Op: "dial"})
+			dials++
+		} else {
+			in.Ops = append(in.Ops, c17rOp{Op: "close", K: r.Intn(dials)})
+		}
+	}
+	return in
+}
+
 func c17rGen(r *verifh.Rand, i int) interface{} {
+	if r.Intn(12) == 0 {
+		return c17rGenBig(r)
+	}
 	in := c17rInput{Cap0: uint32(r.PickInt(1, 1, 2, 2, 3, 4))}
 	n := r.Range(4, 22)
 	dials := 0
